@@ -143,17 +143,27 @@ def bounded(repo, tier, seed):
     uniq = {}
     for v in viol:
         uniq.setdefault(v['key'], v)
-    return result(sum(r[0] for r in res), sum(r[1] for r in res),
+    r1 = result(sum(r[0] for r in res), sum(r[1] for r in res),
                   f"every valid matching (strictly ascending reference labels, strictly monotone query labels) on a {n}x{n} label grid, "
                   f"both orientations, plus random matchings of up to 60 pairs on 200 labels; non-trivial = HitEnum contains a D or an I",
                   [dict(pairs=[list(p) for p in c[0]], direction=c[1]) for c in allc[700:703]],
                   list(uniq.values())[:5], exhaustive=True, bounds=f"grid {n}x{n}")
+    # "... and for every record produced end to end": the records of the real program on generated CMAP sets
+    from bcheck import pipe_driver as pd
+    from bcheck.common import merge
+    modes = ['best', 'separate', 'joined', 'all']
+    r2 = pd.run(repo, tier, seed, ['C03'], (lambda i: [modes[i % 4]]) if tier == 'quick' else modes, 42 if tier == 'quick' else 600,
+                params_list=[{}, {'d': 600}, {'d': 3000}], weights=[1, 2, 1, 3, 3, 1])
+    return merge([r1, r2])
 
 
 def replay(repo, rp):
     from bcheck.common import use_repo
     use_repo(repo)
     i = rp['input']
+    if 'job' in i:
+        from bcheck import pipe_driver as pd
+        return pd.replay(repo, rp)
     c = (tuple(tuple(p) for p in i['pairs']), i['direction']) + ((tuple(i['split']),) if i.get('split') else ())
     case, bad, text = run_case(c)
     return (not bad), dict(hitenum=text, violated=bad)
